@@ -36,7 +36,9 @@ def cap_pool(rng, asn):
     if asn > 65535 or rng.random() < 0.6:
         caps.append(('as4', asn))
     if rng.random() < 0.4:
-        caps.append(('add_path', [(rng.choice(FAMS), rng.choice([1, 2, 3])) for _ in range(rng.choice([1, 1, 2, 3]))]))
+        # one capability listing several families, or several capabilities (RFC 7911 allows both)
+        for _ in range(rng.choice([1, 1, 2, 3])):
+            caps.append(('add_path', [(rng.choice(FAMS), rng.choice([1, 2, 3])) for _ in range(rng.choice([1, 1, 2, 3]))]))
     if rng.random() < 0.3:
         caps.append(('ext_nh', [(rng.choice(FAMS), rng.choice([1, 2])) for _ in range(rng.choice([0, 1, 2, 3]))]))
     if rng.random() < 0.3:
@@ -185,7 +187,15 @@ def run_shard(sh):
             caps, pk = [], None
             asn = rng.choice([1, 23456, 65535])
         packs.add(str(pk))
+        if caps and i % 7 == 3:
+            # pad with an unknown capability so that the optional parameters total exactly 250..255 octets (the largest an OPEN can carry)
+            cur = len(refenc.open_msg(4, asn, hold, bid, [cap_bytes(c) for c in caps], pk)) - 29
+            target = rng.choice([250, 253, 254, 255, 255])
+            extra = target - cur - (2 if pk == 'one' else 4)
+            if pk != 'mixed' and 0 <= extra <= 250:
+                caps = caps + [('unknown', (rng.choice([3, 66, 99, 200]), bytes(rng.randrange(256) for _ in range(extra))))]
         raw = refenc.open_msg(4, asn, hold, bid, [cap_bytes(c) for c in caps], pk or 'one')
+        res['maxima']['max_optional_parameters_length'] = max(res['maxima'].get('max_optional_parameters_length', 0), min(len(raw) - 29, 255))
         if len(raw) > 4096 or (len(raw) - 29) > 255:
             continue
         rep = dict(what='open-reference', hex=raw.hex())
